@@ -320,6 +320,7 @@ func checkC13(ctx *Ctx, r *Report) {
 	}
 	c13NilSymmetry(ctx, r, ts, ifChain(top))
 	c13OperandSymmetry(ctx, r, ts, ifChain(top))
+	c13HuntedRules(ctx, r, ts, ifChain(top))
 	for i, b := range ifChain(top) {
 		if b.cond == nil {
 			continue
@@ -1322,4 +1323,37 @@ func c08UnionReuseComparesBranches(ctx *Ctx, r *Report) {
 	})
 	r.Count("reuse shortcuts of DisjunctionToType", n)
 	r.Floor("reuse shortcuts of DisjunctionToType", 1)
+}
+
+// c13HuntedRules: three clauses of the equality template found violated by bug hunting. (a) `any` reached through a
+// reference: the branch that compares with reflect.DeepEqual must be selected on the *resolved* type, otherwise the value
+// is compared with `!=` (panics on maps and slices). (b) a reference to a named nullable scalar is a pointer type of its
+// own (`type MaybeStr *string`): the scalar branch must compare what the pointers point to. (c) time.Time fields must not
+// be compared with `!=` (it compares the *Location pointer too): recorded finding.
+func c13HuntedRules(ctx *Ctx, r *Report, ts *tmplSet, branches []tmplBranch) {
+	if len(branches) == 0 {
+		return
+	}
+	file := ts.file[recEquality.define]
+	// (a)
+	anyCond := ""
+	for _, b := range branches {
+		if b.cond != nil && strings.Contains(tmplText(b.body), "DeepEqual") {
+			anyCond = b.cond.String()
+		}
+	}
+	r.Count("hunted clauses of the equality template", 3)
+	r.Check(strings.Contains(anyCond, "resolveRefs"), "skeleton/equality-any-through-reference", "type_equality_check DeepEqual branch condition", token.NoPos, "selected on the resolved type",
+		file+": the branch comparing with reflect.DeepEqual is selected by `"+anyCond+"`, which is false for a *reference* to an `any` type: the value is then compared with `!=` — Equals panics (comparing uncomparable type map[string]interface {}) on its own receiver")
+	// (b), (c): the scalar branch
+	for _, b := range branches {
+		if b.cond == nil || !strings.Contains(b.cond.String(), "resolvesToScalar") {
+			continue
+		}
+		txt := tmplText(b.body)
+		r.Check(strings.Contains(txt, "== nil) != (") || (strings.Contains(txt, "Nullable") && strings.Contains(txt, "!= nil && *")), "skeleton/equality-named-nullable-scalar", "type_equality_check scalar branch handles named nullable scalars", token.NoPos, "pointed-to values are compared",
+			file+": the scalar branch compares a reference to a named nullable scalar (`type MaybeStr *string`) with `!=`, i.e. by pointer identity: two values decoded from the same document are unequal")
+		r.Check(strings.Contains(txt, ".Equal("), "skeleton/equality-time", "type_equality_check scalar branch handles time.Time", token.NoPos, "date-time values are compared with Equal",
+			file+": date-time fields are declared time.Time and compared with `!=`, which also compares the *Location pointers: two values decoded from the same document are unequal as soon as the offset is not UTC or a whole hour (+05:30)")
+	}
 }
